@@ -157,7 +157,7 @@ func doBuild(tag string, gobin string, race, plain bool) *build {
 	gomod := "module " + modPath + "\n\ngo 1.22\n"
 	os.WriteFile(filepath.Join(dir, "go.mod"), []byte(gomod), 0o644)
 	var pts bytes.Buffer
-	fmt.Fprintf(&pts, "package main\n\nconst numPoints = %d\n\nconst srcHash = %q\n\nvar pointSites = []string{\n", res.Points, res.SrcHash)
+	fmt.Fprintf(&pts, "package main\n\nconst numPoints = %d\n\nconst srcHash = %q\n\n// libSpawns: the library starts goroutines or uses channels; calm evaluations\n// then run inside a trivial simulation instead of a plain call.\nconst libSpawns = %v\n\nvar pointSites = []string{\n", res.Points, res.SrcHash, res.GoStmts > 0 || res.ChanFiles > 0)
 	for _, s := range res.PointSite {
 		fmt.Fprintf(&pts, "\t%q,\n", s)
 	}
